@@ -222,9 +222,9 @@ theorem C10_rest_of_queue_is_not_consulted (c : CS) (o : Oracle) (a0 : Action) (
     the head for the next pass. -/
 theorem C10_waiting_head_blocks (c : CS) (o : Oracle) (out : List Out) (tmo : Option Time) (a : Action)
     (hs : speaker c = some a)
-    (hst : (innerLoop c.env.now 64 { c.dev with wake := none } a o []).finished = false) :
+    (hst : (innerLoop c.env.now (loopBound a) { c.dev with wake := none } a o []).finished = false) :
     (bodyStep c o out tmo).2 = false ∧
-    (bodyStep c o out tmo).1.1.dev.acts = (innerLoop c.env.now 64 { c.dev with wake := none } a o []).act :: c.dev.acts.tail :=
+    (bodyStep c o out tmo).1.1.dev.acts = (innerLoop c.env.now (loopBound a) { c.dev with wake := none } a o []).act :: c.dev.acts.tail :=
   bodyStep_stalled c o out tmo a hs hst
 
 /-- **Before login completed, only the login script sends.**  Start a run of `_process_action` in a state satisfying
@@ -241,7 +241,7 @@ theorem C10_only_login_speaks_before_login (fuel : Nat) (c : CS) (o : Oracle) (o
 example :
     let c : CS := { dev := Ex.fresh, env := Ex.env0, sys := [] }
     LoginHead c.dev ∧ (speaker c).map (·.com) = some 0 ∧
-    ((speaker c).map fun a => (innerLoop c.env.now 64 { c.dev with wake := none } a ⟨[]⟩ []).finished) = some false ∧
+    ((speaker c).map fun a => (innerLoop c.env.now (loopBound a) { c.dev with wake := none } a ⟨[]⟩ []).finished) = some false ∧
     sentsOf (processActionF 10 c ⟨[]⟩ [] none).2.2.1 = [[108]] :=
   ⟨fun _ _ => ⟨_, _, rfl, rfl⟩, by decide +kernel, by decide +kernel, by decide +kernel⟩
 
